@@ -29,7 +29,9 @@ def expected_sizes(M, L, vals, size):
             out.append("g:%s=%d" % (g.name, M.group_size(g, gv)))
             out.append("gh:%s=%d" % (g.name, g.dimension.size))
             for e in gv["entries"]:
-                out.append("e=%d" % M.level_size(g, e))
+                ev = dict(e)
+                ev["extra"] = gv.get("extra", 0)   # entries share the group's wire blockLength
+                out.append("e=%d" % M.level_size(g, ev))
                 level(g, e)
         for d in Lv.data:
             out.append("d:%s=%d" % (d.name, d.header_size + len(v["data"][d.name])))
